@@ -5,6 +5,7 @@ CONSTANTS
   NDown = 0
   MaxFaults = 1000
   MaxDrops = 0
+  MaxStalls = 0
 SPECIFICATION TSpec
 INVARIANTS OneAcceptPerSession OneCurrent NeverDead NoFlags
 CONSTRAINT Mark
